@@ -384,7 +384,32 @@ func c20Eval(cs c20Case) (cl string, detail string) {
 	return
 }
 
-func c20Plans() [][]int {
+func c20Plans(maxLen int) [][]int {
+	if maxLen >= 4 {
+		plans := [][]int{nil}
+		var rec func(cur []int)
+		rec = func(cur []int) {
+			if len(cur) > 0 {
+				plans = append(plans, append([]int(nil), cur...))
+			}
+			if len(cur) == maxLen {
+				return
+			}
+			for a := 0; a < 3; a++ {
+				// the last outcome repeats: a plan never ends with a repetition of its last element
+				rec(append(cur, a))
+			}
+		}
+		rec(nil)
+		var out [][]int
+		for _, p := range plans {
+			if n := len(p); n >= 2 && p[n-1] == p[n-2] {
+				continue
+			}
+			out = append(out, p)
+		}
+		return out
+	}
 	plans := [][]int{nil}
 	for a := 0; a < 3; a++ {
 		plans = append(plans, []int{a})
@@ -404,8 +429,15 @@ func c20Plans() [][]int {
 
 func c20Run(c *Ctx) {
 	var idx int64
+	maxPlan, maxSend := 3, 3
+	if c.Thorough() {
+		maxPlan, maxSend = 4, 4
+	}
 	for _, target := range []string{"mgr", "failover-direct", "backend", "e2e-response", "e2e-request"} {
 		prims := []string{"absent", "healthy", "fails@0", "fails@1", "fails@2"}
+		if c.Thorough() {
+			prims = append(prims, "fails@3")
+		}
 		secs := []string{"fresh", "stale", "absent"}
 		if target == "backend" || target == "e2e-request" {
 			prims = []string{"absent"}
@@ -413,13 +445,16 @@ func c20Run(c *Ctx) {
 		}
 		if target == "e2e-response" {
 			prims = []string{"healthy", "fails@0", "fails@1", "fails@2"}
+			if c.Thorough() {
+				prims = append(prims, "fails@3")
+			}
 			secs = []string{"fresh"}
 		}
 		for _, pr := range prims {
 			for _, sc := range secs {
-				for _, plan := range c20Plans() {
-					for brk := -1; brk < 3; brk++ {
-						for n := 1; n <= 3; n++ {
+				for _, plan := range c20Plans(maxPlan) {
+					for brk := -1; brk < maxSend; brk++ {
+						for n := 1; n <= maxSend; n++ {
 							if brk >= n || (strings.HasPrefix(pr, "fails@") && int(pr[6]-'0') >= n) {
 								continue
 							}
@@ -458,7 +493,7 @@ func c20Run(c *Ctx) {
 
 func init() {
 	addCheck(&Check{ID: "C20", Level: "fault_enumeration",
-		Rule:   "the complete fault product as environment answers of the simulated network: cached inbound connection {absent, healthy, reset by the peer before send 0/1/2} x reconnectable path {fresh, stale (established earlier, then reset), absent} x every dial plan of up to three successive outcomes over {accepted, refused, accepted but every write fails} x working connection reset before send 0/1/2 or never x send sequences of 1-3 messages, for (a) the FailOverClientTransport obtained from the real ClientTransportMgr exactly as the proxy obtains it, (b) a directly constructed fail-over, (c) TCPBackend, (d) end to end: responses towards a TCP client whose connection breaks, (e) requests towards a TCP backend; oracle: Send returns nil iff exactly one complete copy was delivered, success is required whenever the next connection attempt is accepted with healthy writes, no write on a connection that failed before, no dial while the working connection is healthy, no hang, no crash; non-trivial = at least one fault in the pattern",
+		Rule:   "the complete fault product as environment answers of the simulated network: cached inbound connection {absent, healthy, reset by the peer before send 0/1/2} x reconnectable path {fresh, stale (established earlier, then reset), absent} x every dial plan of up to three (thorough four) successive outcomes over {accepted, refused, accepted but every write fails} x working connection reset before send 0/1/2 or never x send sequences of 1-3 (thorough 1-4) messages, for (a) the FailOverClientTransport obtained from the real ClientTransportMgr exactly as the proxy obtains it, (b) a directly constructed fail-over, (c) TCPBackend, (d) end to end: responses towards a TCP client whose connection breaks, (e) requests towards a TCP backend; oracle: Send returns nil iff exactly one complete copy was delivered, success is required whenever the next connection attempt is accepted with healthy writes, no write on a connection that failed before, no dial while the working connection is healthy, no hang, no crash; non-trivial = at least one fault in the pattern",
 		Assume: []string{"a write on a reset connection fails at once (the kernel's delayed RST, which makes exactly-once impossible for any implementation, is outside the model)", "a peer that black-holes a dial is outside what the simulation can decide"},
 		Run:    c20Run,
 		Replay: func(c *Ctx, raw json.RawMessage) string {
